@@ -127,23 +127,49 @@ func DetectFromMagic(data []byte) Format {
 
 // detectHTMLMagic checks if the data looks like HTML content.
 func detectHTMLMagic(data []byte) bool {
-	// Trim leading whitespace
-	start := 0
-	for start < len(data) && (data[start] == ' ' || data[start] == '\t' || data[start] == '\n' || data[start] == '\r') {
-		start++
+	// Skip a UTF-8 byte-order mark
+	if len(data) >= 3 && data[0] == 0xEF && data[1] == 0xBB && data[2] == 0xBF {
+		data = data[3:]
 	}
-	if start >= len(data) {
+
+	// Skip leading whitespace and comments (a comment may precede the doctype)
+	for {
+		start := 0
+		for start < len(data) && (data[start] == ' ' || data[start] == '\t' || data[start] == '\n' || data[start] == '\r') {
+			start++
+		}
+		data = data[start:]
+		if len(data) >= 4 && string(data[:4]) == "<!--" {
+			end := strings.Index(string(data), "-->")
+			if end < 0 {
+				return false
+			}
+			data = data[end+3:]
+			continue
+		}
+		break
+	}
+	if len(data) == 0 {
 		return false
 	}
-	data = data[start:]
 
 	// Check for common HTML signatures (case-insensitive for DOCTYPE)
 	upper := strings.ToUpper(string(data))
-	if strings.HasPrefix(upper, "<!DOCTYPE HTML") {
-		return true
+	if strings.HasPrefix(upper, "<!DOCTYPE") {
+		// any amount of white space may separate the keyword from the name
+		rest := strings.TrimLeft(upper[len("<!DOCTYPE"):], " \t\n\r\f")
+		if len(rest) < len(upper)-len("<!DOCTYPE") && strings.HasPrefix(rest, "HTML") {
+			return true
+		}
 	}
 	if strings.HasPrefix(upper, "<HTML") {
 		return true
+	}
+	// The html start tag is optional: a document may begin with head or body
+	for _, tag := range []string{"<HEAD", "<BODY"} {
+		if strings.HasPrefix(upper, tag) && (len(upper) == len(tag) || upper[len(tag)] == '>' || upper[len(tag)] == ' ' || upper[len(tag)] == '\t' || upper[len(tag)] == '\n' || upper[len(tag)] == '\r' || upper[len(tag)] == '/') {
+			return true
+		}
 	}
 	// XML declaration followed by html-like content could be XHTML
 	if strings.HasPrefix(upper, "<?XML") && strings.Contains(upper[:min(500, len(upper))], "<HTML") {
